@@ -6,7 +6,16 @@ import json, os, subprocess
 from vlib import core
 
 PKG = "./lib/executors"
-OVERLAY = {"lib/executors/zz_verif_c16_test.go": "c16/executors_trace_test.go"}
+OVERLAY = {"lib/executors/zz_verif_c16_test.go": "c16/executors_trace_test.go",
+           "lib/executors/zz_verif_c16gen_test.go": "c16/executors_gen_test.go"}
+# clients of the executors (anchors lib/store/sqlx/bulkinserter.go, lib/stat/metrics.go): same trace format, same acceptor
+REC = {"internal/verifc16rec/rec.go": "c16/rec/rec.go"}
+CLIENTS = {
+    "inserter": dict(pkg="./lib/store/sqlx", dir="lib/store/sqlx", test="^TestVerifC16Inserter$",
+                     overlay=dict(REC, **{"lib/store/sqlx/zz_verif_c16_test.go": "c16/inserter_trace_test.go"})),
+    "metrics": dict(pkg="./lib/stat", dir="lib/stat", test="^TestVerifC16Metrics$",
+                    overlay=dict(REC, **{"lib/stat/zz_verif_c16_test.go": "c16/metrics_trace_test.go"})),
+}
 INVS = ["ExactlyOnce", "InOrder", "Bounded", "Sane"]
 TRACE_CONSTS = dict(Procs="0..7", Confs="{}", Sizes="{}", MaxTask=0)
 IMPL_SAFETY = ["ExactlyOnce", "HeldCovered", "CmdCovered", "AllExecuted", "Contiguous", "OneLoopFlusher"]
@@ -25,14 +34,21 @@ META = dict(
          "event that the specification never allows). "
          "spec/PeriodicalImpl.tla (pe.lock regions, inflight, guarded, 1-slot commander, unbuffered confirmChan, "
          "wgBarrier/waitGroup, flusher select loop, shallQuit, final Flush) is model-checked over all interleavings for "
-         "exactly-once, flusher-alive-while-work-pending, single loop flusher and deadlock freedom.",
+         "exactly-once, flusher-alive-while-work-pending, single loop flusher and deadlock freedom (two seeded mechanism "
+         "changes are kept as expected-violation variants). Clients of the executors are recorded in the same trace "
+         "format and judged by the same acceptor: sqlx.BulkInserter (fake Conn parsing the executed INSERT statements; "
+         "result handler once per executed statement; Flush, 1000-row threshold and real 1 s tick as triggers; failing "
+         "Execs) and stat.Metrics (reports decoded through power-of-two task durations; drops counted). "
+         "spec/ExecutorGen.tla enumerates every sequential behaviour (Add/tick/Flush/Wait/idle jump) of Bulk- and "
+         "ChunkExecutor up to 4-6 steps with predicted batches per step, replayed on the real executors.",
     note="Trusted: TLC, the tracer's global sequence number (container events are emitted under pe.lock; inv before / ret "
          "after each call), Go race detector, the in-package reads of pe.guarded used only as a harness barrier. "
          "Coverage of the real code is the set of recorded schedules (plus the two directed scenarios), not all "
          "schedules: the exhaustive exploration is on the PeriodicalImpl model, whose counterexamples are leads only "
-         "(reported in evidence, never as violations). No ExecutorGen/spec->code replay and no vhook gates (tier 2 of "
-         "the design) were built; bulk/chunk use a real 1 ms ticker in half of the histories. lib/store/sqlx/bulkinserter.go "
-         "and lib/stat/metrics.go (clients of the executors) are not driven.",
+         "(reported in evidence, never as violations). No vhook gates (tier 2 of the design) were built; the spec->code "
+         "replay covers sequential behaviours only; BulkInserter/Metrics expose no Wait (the recorder uses the embedded "
+         "executor's) and no ticker injection (real 1 s ticker, one tick-triggered history per run); Metrics reports are "
+         "judged on task identity, count and drops, not on the percentile figures; bulk/chunk use a real 1 ms ticker in half of the histories.",
     technique="TLA+ abstract spec + TLC trace validation of recorded concurrent histories + TLC model checking of the mechanism",
     design="4/C16")
 
@@ -70,7 +86,7 @@ def mc_impl(ctx):
     leads = {}
     for name, sc, thr in plans:
         na = sc.count("<<") - 1
-        K = dict(NA=na, Scripts=sc, Thr=thr, MaxGen=2, Cap=1, Fix=1)
+        K = dict(NA=na, Scripts=sc, Thr=thr, MaxGen=2, Cap=1, Fix=1, Variant='"code"')
         cfg = core.render_cfg(spec="Spec", constants=K, invariants=IMPL_SAFETY + ["WaitSound"], check_deadlock=True)
         r = ctx.tlc("PeriodicalImpl", cfg, constants=K, name="Impl-%s-code" % name, workers=6, timeout=1500, coverage=True)
         ctx.check_coverage(r, ["ALock", "ASendBuf", "Confirm", "FRecv", "FTick", "FQuitChk", "ClockJump", "WWait", "WDrain", "Fl2", "X1"])
@@ -82,6 +98,18 @@ def mc_impl(ctx):
         if r.violated:
             steps = [l.split(" line")[0].replace("State ", "").strip() for l in r.trace_text.splitlines() if l.startswith("State ")]
             leads["%s/Fix=0" % name] = dict(violated=r.violated, length=len(steps), actions=steps[:40])
+    # vacuity guards: two seeded mechanism changes (caught by the recorder on the real code) must be visible on the model
+    variants = {}
+    name, sc, thr = plans[0]
+    for v in ("quit_ignores_inflight", "unguard_after_final_flush"):
+        K = dict(NA=sc.count("<<") - 1, Scripts=sc, Thr=thr, MaxGen=2, Cap=1, Fix=1, Variant='"%s"' % v)
+        cfg = core.render_cfg(spec="Spec", constants=K, invariants=IMPL_SAFETY + ["WaitSound"], check_deadlock=True)
+        r = ctx.tlc("PeriodicalImpl", cfg, constants=K, name="Impl-variant-%s" % v, workers=6, timeout=1500, allow_violation=True)
+        if not r.violated:
+            raise core.Infra("vacuous model: PeriodicalImpl variant %s satisfies every invariant and is deadlock free" % v)
+        steps = [l.split(" line")[0].replace("State ", "").strip() for l in r.trace_text.splitlines() if l.startswith("State ")]
+        variants[v] = dict(violated=r.violated, length=len(steps), actions=steps[:40])
+    ctx.notes["impl_model_expected_violations"] = variants
     ctx.notes["impl_model_leads"] = leads or "none"
     ctx.notes["impl_model_leads_meaning"] = ("TLC counterexamples of WaitSound on PeriodicalImpl.tla with Fix=0 (the hand-over as it was "
                                              "before the repair of Wait); leads only - verdicts come from recorded histories")
@@ -89,15 +117,15 @@ def mc_impl(ctx):
 
 # --------------------------------------------------------------------------- record + validate
 
-def record(ctx, binp, label, rounds, gomaxprocs, shard, kind=""):
+def record(ctx, binp, label, rounds, gomaxprocs, shard, kind="", test="^TestVerifC16Trace$", pkgdir="lib/executors"):
     path = os.path.join(ctx.build, "trace-%s.ndjson" % label)
     e = dict(os.environ)
     e.update(core.GOENV)
     e.update(VERIF_SEED=str(ctx.seed), VERIF_TRACE=path, VERIF_ROUNDS=str(rounds), VERIF_SHARD=str(shard),
              GOMAXPROCS=str(gomaxprocs), VERIF_KIND=kind)
     try:
-        p = subprocess.run([binp, "-test.run", "^TestVerifC16Trace$", "-test.count=1", "-test.timeout", "900s"],
-                           cwd=os.path.join(core.REPO, "lib/executors"), env=e, capture_output=True, text=True, timeout=1000)
+        p = subprocess.run([binp, "-test.run", test, "-test.count=1", "-test.timeout", "900s"],
+                           cwd=os.path.join(core.REPO, pkgdir), env=e, capture_output=True, text=True, timeout=1000)
     except subprocess.TimeoutExpired:
         raise core.Infra("C16 recorder timed out (%s)" % label)
     out = p.stdout + p.stderr
@@ -169,10 +197,31 @@ def validate(ctx, path, name):
                                constants=TRACE_CONSTS, describe=describe, max_rejections=2)
 
 
+def gen_replay(ctx, binp, name, kind, mx, sizes, maxlen):
+    """spec -> code: every sequential behaviour of ExecutorGen.tla up to maxlen steps (complete BFS enumeration) is
+    executed on the real Bulk/ChunkExecutor and compared step by step."""
+    K = dict(Kind='"%s"' % kind, Max=mx, Sizes=sizes, Ops='{"add","tick","flush","wait","jump"}', MaxLen=maxlen)
+    cfg = core.render_cfg(spec="GSpec", constants=K, invariants=["Emit", "GBound"])
+    r = ctx.tlc("ExecutorGen", cfg, constants=K, name="gen-" + name, workers=6, timeout=900)
+    path, cnt = ctx.write_cases("gen-%s.ndjson" % name, r.printed)
+    if cnt == 0:
+        raise core.Infra("ExecutorGen produced no behaviours for %s" % name)
+    if len(ctx.samples) < 3:
+        ctx.samples += core.sample_of(r.printed, 1)
+    ctx.replay(PKG, OVERLAY, "^TestVerifC16Gen$", path, label="gen-" + name, env=dict(VERIF_KIND=kind, VERIF_MAX=mx),
+               shards=16, binp=binp, race=True)
+
+
 def run(ctx):
     mc_abstract(ctx)
     mc_impl(ctx)
     binp = ctx.go_build(PKG, OVERLAY, race=True, name="c16drv")
+    gplans = [("bulk2", "bulk", 2, "{1}", 5), ("chunk3", "chunk", 3, "{1,2,3}", 4)] if ctx.quick else \
+             [("bulk1", "bulk", 1, "{1}", 5), ("bulk2", "bulk", 2, "{1}", 6), ("bulk3", "bulk", 3, "{1}", 6),
+              ("chunk3", "chunk", 3, "{1,2,3,5}", 5), ("chunk4", "chunk", 4, "{1,3,4,6}", 5)]
+    ctx.exhaustive = True
+    for g in gplans:
+        gen_replay(ctx, binp, *g)
     plans = [(12, 4, 0), (12, 1, 1), (12, 2, 2), (12, 16, 3)] if ctx.quick else \
             [(400, 4, 0), (400, 1, 1), (400, 2, 2), (400, 16, 3), (300, 8, 4), (300, 3, 5)]
     for rounds, gmp, shard in plans:
@@ -186,6 +235,25 @@ def run(ctx):
         if not ctx.samples:
             lines = open(path).read().splitlines()
             ctx.samples.append([json.loads(x) for x in lines[:16]])
+    if not ctx.counters.get("rec.hangs", 0):
+        cplans = [("inserter", 8, 4, 0), ("metrics", 10, 2, 0)] if ctx.quick else \
+                 [("inserter", 100, 4, 0), ("inserter", 100, 1, 1), ("inserter", 60, 16, 2),
+                  ("metrics", 150, 4, 0), ("metrics", 150, 1, 1), ("metrics", 100, 16, 2)]
+        bins, raced = {}, False
+        for kind, rounds, gmp, shard in cplans:
+            c = CLIENTS[kind]
+            if kind not in bins:
+                bins[kind] = ctx.go_build(c["pkg"], c["overlay"], race=True, name="c16" + kind)
+            path = record(ctx, bins[kind], "%s-g%d-%d" % (kind, gmp, shard), rounds, gmp, shard, test=c["test"], pkgdir=c["dir"])
+            if path is None:
+                raced = True
+                continue
+            validate(ctx, path, "trace-%s-%d" % (kind, shard))
+            if ctx.counters.get("rec.hangs", 0):
+                break
+        for k in ("rec.hist_inserter", "rec.hist_metrics", "rec.tick_flushes", "rec.threshold_batches", "rec.exec_failures"):
+            if not raced and not ctx.counters.get("rec.hangs", 0) and ctx.counters.get(k, 0) == 0:
+                raise core.Infra("vacuous recording: counter %s is 0" % k)
     if not ctx.quick and not ctx.counters.get("rec.hangs", 0):
         for k in ("rec.flusher_stops", "rec.hist_handover", "rec.hist_quitrace", "rec.hist_bulk", "rec.hist_chunk", "rec.takes_nonempty", "rec.waits"):
             if ctx.counters.get(k, 0) == 0:
@@ -203,6 +271,14 @@ def replay(ctx, rp):
     saved history again on the current tree (same seed; the directed hand-over scenario is deterministic, the
     stress scenarios are repeated often enough that the reported classes showed up in every run so far) and
     validates what is recorded now.  The saved history itself is kept in the replay file for inspection."""
+    if rp.get("source") == "replay":      # a generated behaviour (spec -> code): run exactly that behaviour again
+        import re
+        m = re.search(r"kind=(\w+) max=(\d+)", rp.get("msg") or "")
+        if not m:
+            raise core.Infra("replay file of a generated behaviour without kind/max")
+        path, _ = ctx.write_cases("replay.ndjson", [rp["case"]])
+        ctx.replay(PKG, OVERLAY, "^TestVerifC16Gen$", path, label="replay", env=dict(VERIF_KIND=m.group(1), VERIF_MAX=int(m.group(2))), race=True)
+        return
     seg = json.loads(rp["case"]) if rp.get("case") else []
     try:
         first = json.loads(seg[0])
@@ -211,6 +287,14 @@ def replay(ctx, rp):
     kind = first.get("sc") if first.get("sc") in ("handover", "quitrace") else first.get("kind", "")
     kinds = {"per": ["handover", "quitrace", "per"], "handover": ["handover"], "quitrace": ["quitrace"], "bulk": ["bulk"],
              "chunk": ["chunk"]}.get(kind, ["handover", "quitrace", "per", "bulk", "chunk"])
+    if kind in CLIENTS:
+        c = CLIENTS[kind]
+        binp = ctx.go_build(c["pkg"], c["overlay"], race=True, name="c16" + kind)
+        for gmp in (1, 4):
+            p2 = record(ctx, binp, "replay-%s-g%d" % (kind, gmp), 40, gmp, gmp, test=c["test"], pkgdir=c["dir"])
+            if p2:
+                validate(ctx, p2, "replay-%s-g%d" % (kind, gmp))
+        return
     binp = ctx.go_build(PKG, OVERLAY, race=True, name="c16drv")
     n = 0
     for k in kinds:
